@@ -16,6 +16,7 @@
 #include <vector>
 #include <map>
 #include <set>
+#include <list>
 #include <memory>
 #include <cstdint>
 
@@ -70,6 +71,36 @@ struct dropper_sink : sim::sink
 	std::string m_name;
 	std::set<int> m_which;
 	int m_seen = 0;
+};
+
+// a sink that holds the droppable packets whose ordinal among droppable packets seen (same
+// ordinal rule as dropper_sink) is listed, each for its own number of virtual nanoseconds, and
+// then forwards them unchanged; everything else passes at once. Every held packet has its own
+// timer (on the simulation's internal io_context, like sim::queue's), so packets that pass while
+// another is held overtake it: reordering without loss and without any drop notification
+struct delayer_sink : sim::sink
+{
+	delayer_sink(World& w, sim::asio::io_context& ios, std::string name, std::map<int, std::int64_t> delays)
+		: m_w(w), m_ios(ios), m_name(std::move(name)), m_delays(std::move(delays)) {}
+	void incoming_packet(sim::aux::packet p) override;
+	std::string label() const override { return m_name; }
+	// cancels the timers and discards what is held (teardown)
+	void clear() { m_held.clear(); }
+	struct held
+	{
+		held(long i, sim::aux::packet p, sim::asio::io_context& ios) : id(i), pkt(std::move(p)), timer(ios) {}
+		long id;
+		sim::aux::packet pkt;
+		sim::asio::high_resolution_timer timer;
+	};
+	void release(long id, boost::system::error_code const& ec);
+	World& m_w;
+	sim::asio::io_context& m_ios;
+	std::string m_name;
+	std::map<int, std::int64_t> m_delays;   // ordinal -> ns
+	int m_seen = 0;
+	long m_next_id = 0;
+	std::list<held> m_held;
 };
 
 // terminal sink: swallows whatever arrives
